@@ -219,6 +219,32 @@ theorem buffering_exact (s : St) (rs : List Report) (hm : s.mode = .initializing
     run s (rs.map .report) = { s with buf := s.buf ++ rs } :=
   run_reports_initializing hm
 
+/-- the pre-check of a notification is not atomic (state read, then buffer lock, then state read again).  For a
+    notification thread that saw `initializing`: if it gets the buffer lock before `reload_all` replays, the report is
+    buffered exactly as in the atomic step … -/
+theorem buffer_race_early (s : St) (r : Report) (hm : s.mode = .initializing) :
+    finishBuffered s r = step s (.report r) := by
+  unfold finishBuffered; rw [step_report_initializing r hm]; simp [hm]
+
+/-- … and if `reload_all` finishes first (every interleaving: `reloadEnd` is atomic with respect to the buffer lock),
+    the re-check under the lock sends the report through its handler: it is not appended to the (already replayed)
+    buffer, the buffer stays empty, nothing is lost and nothing is applied twice -/
+theorem buffer_race_late (s : St) (r : Report) (snap : Snapshot) (ctx2 : List CState) (hm : s.mode = .initializing)
+    (hw : snap.wf ctx2 = true) :
+    (finishBuffered (step s (.reloadEnd snap ctx2)).1 r).1 =
+      { (step s (.reloadEnd snap ctx2)).1 with core := (applyReport (step s (.reloadEnd snap ctx2)).1.core r).1 } ∧
+    (finishBuffered (step s (.reloadEnd snap ctx2)).1 r).1.buf = [] := by
+  rw [step_reloadEnd snap ctx2 hm hw]
+  exact ⟨rfl, rfl⟩
+
+/-- with the ids of the loaded MDIB the late report is processed exactly like a report that arrives after the load -/
+theorem buffer_race_late_eq_report (s : St) (r : Report) (hm : s.mode = .initialized) (hid : idsDiffer s.core r = false) :
+    finishBuffered s r = step s (.report r) := by
+  unfold finishBuffered; rw [step_report_ok r hm hid]; simp [hm]
+
+example : (finishBuffered (run St.init [.reloadBegin, .reloadEnd snap0 []]) metric5).1.core.vg.ver = 5 ∧
+    (finishBuffered (run St.init [.reloadBegin, .reloadEnd snap0 []]) metric5).1.buf = [] := by decide
+
 /-- when the answers arrive, the consumer holds the answer plus exactly the buffered reports that have its
     SequenceId and are newer than it, each applied once, in arrival order; the buffer is empty, the state `initialized` -/
 theorem reload_restores (s : St) (snap : Snapshot) (ctx2 : List CState) (hm : s.mode = .initializing)
